@@ -132,13 +132,6 @@ Proof.
   intros x Hx. rewrite forallb_forall in H1. apply Qlt_bool_iff. auto.
 Qed.
 
-(* the last timed row of the map is a note: no tempo point and no SV after the last object *)
-Definition last_is_noteb (c : chart) : bool :=
-  match last_object c with
-  | Some hi => forallb (fun t => Qle_bool t hi) (tempo_times c ++ map fst (sv_rows c))
-  | None => false
-  end.
-
 Lemma ssorted_app_inv pre l : ssorted (pre ++ l) -> ssorted l /\ forall x y, In x pre -> In y l -> x < y.
 Proof.
   induction pre as [|a pre IH]; simpl; intro H.
@@ -186,25 +179,6 @@ Qed.
 Lemma list_max_some l : l <> [] -> exists m, list_max l = Some m.
 Proof. destruct l as [|a l]; [congruence|]. intros _. simpl. destruct (list_max l); eauto. Qed.
 
-(* an already sorted Series is left alone by sort_values *)
-Fixpoint sorted_le (l : list Q) : Prop :=
-  match l with a :: ((b :: _) as t) => a <= b /\ sorted_le t | _ => True end.
-Lemma qsort_sorted_id l : sorted_le l -> qsort l = l.
-Proof.
-  induction l as [|a l IH]; [reflexivity|]. intro H. simpl qsort.
-  destruct l as [|b t]; [reflexivity|]. destruct H as [H1 H2]. rewrite (IH H2). simpl.
-  apply Qle_bool_iff in H1. rewrite H1. reflexivity.
-Qed.
-Lemma ssorted_app_last l last : ssorted l -> (forall x, In x l -> x <= last) -> sorted_le (l ++ [last]).
-Proof.
-  induction l as [|a l IH]; intros S B; [simpl; exact I|].
-  destruct S as [S1 S2]. destruct l as [|b t].
-  - simpl. split; [apply B; left; reflexivity|exact I].
-  - change (a <= b /\ sorted_le ((b :: t) ++ [last])). split.
-    + apply Qlt_le_weak. apply S1. left. reflexivity.
-    + apply IH; [exact S2|]. intros x Hx. apply B. right. exact Hx.
-Qed.
-
 Lemma diffs_length l x : length (diffs (l ++ [x])) = length l.
 Proof.
   induction l as [|a l IH]; [reflexivity|]. destruct l as [|b t]; [reflexivity|].
@@ -243,31 +217,6 @@ Proof.
   destruct rows as [|r rows']; [reflexivity|]. simpl map. apply list_min_ssorted. exact S4.
 Qed.
 
-Lemma clip_id lo hi x : lo <= x -> x <= hi -> clip lo hi x == x.
-Proof.
-  intros H1 H2. unfold clip, Qmin', Qmax'.
-  destruct (Qle_bool x lo) eqn:E1.
-  - apply Qle_bool_iff in E1. destruct (Qle_bool lo hi) eqn:E2; [lra|]. apply Qle_bool_false in E2. lra.
-  - destruct (Qle_bool x hi) eqn:E2; [lra|]. apply Qle_bool_false in E2. lra.
-Qed.
-
-Lemma segment_val c lo hi o e :
-  lo <= o -> o <= e -> e <= hi ->
-  next_tempo c o = Some e \/ (next_tempo c o = None /\ e == hi) ->
-  segment_time c lo hi o == e - o.
-Proof.
-  intros H1 H2 H3 H. unfold segment_time.
-  assert (Co: clip lo hi o == o) by (apply clip_id; lra).
-  destruct H as [H|[H He]]; rewrite H.
-  - assert (Ce: clip lo hi e == e) by (apply clip_id; lra).
-    destruct (Qlt_bool (clip lo hi o) (clip lo hi e)) eqn:E.
-    + lra.
-    + apply Qlt_bool_false in E. lra.
-  - destruct (Qlt_bool (clip lo hi o) hi) eqn:E.
-    + lra.
-    + apply Qlt_bool_false in E. lra.
-Qed.
-
 Lemma Qeq_bool_congr b k k' : k == k' -> Qeq_bool b k = Qeq_bool b k'.
 Proof.
   intro H. destruct (Qeq_bool b k) eqn:E1, (Qeq_bool b k') eqn:E2; try reflexivity.
@@ -292,43 +241,183 @@ Lemma group_sum_cons k b d R :
   group_sum k ((b, d) :: R) = if Qeq_bool b k then Qred (d + group_sum k R) else group_sum k R.
 Proof. reflexivity. Qed.
 
+(* ---------- boolean comparisons to inequalities *)
+Ltac qbool := repeat match goal with
+  | H : Qle_bool _ _ = true |- _ => apply Qle_bool_iff in H
+  | H : Qle_bool _ _ = false |- _ => apply Qle_bool_false in H
+  | H : Qlt_bool _ _ = true |- _ => apply Qlt_bool_iff in H
+  | H : Qlt_bool _ _ = false |- _ => apply Qlt_bool_false in H end.
+Ltac qcases := repeat match goal with |- context [if ?b then _ else _] => destruct b eqn:? end; qbool; try lra.
+
+Lemma Qmin'_compat o a b : a == b -> Qmin' o a == Qmin' o b.
+Proof. intro H. unfold Qmin'. qcases. Qed.
+Lemma Qmin'_self x : Qmin' x x == x.
+Proof. unfold Qmin'. qcases. Qed.
+Lemma Qmin'_compat_l a b hi : a == b -> Qmin' a hi == Qmin' b hi.
+Proof. intro H. unfold Qmin'. qcases. Qed.
+Lemma Qmax'_compat_l a b lo : a == b -> Qmax' a lo == Qmax' b lo.
+Proof. intro H. unfold Qmax'. qcases. Qed.
+Lemma Qmax'_ge lo x : lo <= x -> Qmax' x lo == x.
+Proof. intro H. unfold Qmax'. qcases. Qed.
+Lemma Qmin'_mono a b hi : a <= b -> Qmin' a hi <= Qmin' b hi.
+Proof. intro H. unfold Qmin'. qcases. Qed.
+Lemma Qmin'_le_r a hi : Qmin' a hi <= hi.
+Proof. unfold Qmin'. qcases. Qed.
+Lemma clip_compat lo hi a b : a == b -> clip lo hi a == clip lo hi b.
+Proof. intro H. unfold clip. apply Qmin'_compat_l. apply Qmax'_compat_l. exact H. Qed.
+Lemma clip_ge lo hi x : lo <= x -> clip lo hi x == Qmin' x hi.
+Proof. intro H. unfold clip. apply Qmin'_compat_l. apply Qmax'_ge. exact H. Qed.
+
+(* the specification's segment length, once the next tempo point is known (times at or after [lo]) *)
+Lemma segment_val_some c lo hi o e :
+  lo <= o -> o <= e -> next_tempo c o = Some e -> segment_time c lo hi o == Qmin' e hi - Qmin' o hi.
+Proof.
+  intros H1 H2 H. unfold segment_time. rewrite H.
+  pose proof (clip_ge lo hi o H1) as Co. assert (H3: lo <= e) by lra. pose proof (clip_ge lo hi e H3) as Ce.
+  pose proof (Qmin'_mono o e hi H2) as M.
+  destruct (Qlt_bool (clip lo hi o) (clip lo hi e)) eqn:E; qbool; lra.
+Qed.
+Lemma segment_val_none c lo hi o :
+  lo <= o -> lo <= hi -> next_tempo c o = None -> segment_time c lo hi o == hi - Qmin' o hi.
+Proof.
+  intros H1 H2 H. unfold segment_time. rewrite H.
+  pose proof (clip_ge lo hi o H1) as Co. pose proof (Qmin'_le_r o hi) as M.
+  destruct (Qlt_bool (clip lo hi o) hi) eqn:E; qbool; lra.
+Qed.
+
+Lemma diffs_cons2 a b t : diffs (a :: b :: t) = Qred (b - a) :: diffs (b :: t).
+Proof. reflexivity. Qed.
+
 Section Dominant.
   Variables (c : chart) (lo hi last k : Q).
   Hypothesis S : ssorted (tempo_times c).
   Hypothesis Blo : forall t, In t (tempo_times c) -> lo <= t.
-  Hypothesis Bhi : forall t, In t (tempo_times c) -> t <= hi.
+  Hypothesis Hlohi : lo <= hi.
   Hypothesis Elast : last == hi.
 
-  (* the model's labelled intervals, summed per label, are the specification's active times *)
+  (* tempo rows in time order: the model's clipped, labelled intervals, summed per label, are the
+     specification's active times *)
   Lemma group_sum_active rows : forall pre, c_bpms c = pre ++ rows ->
-    group_sum k (combine (map snd rows) (diffs (map fst rows ++ [last])))
+    group_sum k (combine (map snd rows) (diffs (map (fun o => Qmin' o last) (map fst rows ++ [last]))))
     == sum_where k (segment_time c lo hi) rows.
   Proof.
     induction rows as [|[o b] rows IH]; intros pre E; [simpl; lra|].
     assert (Ho: In o (tempo_times c)).
     { unfold tempo_times. rewrite E, map_app. apply in_or_app. right. left. reflexivity. }
     pose proof (next_tempo_sorted c pre o b rows E S) as N.
+    pose proof (Qmin'_compat o last hi Elast) as Co.
     destruct rows as [|[o' b'] rows'].
-    - cbn [map app diffs combine group_sum sum_where snd fst].
-      assert (V: segment_time c lo hi o == hi - o).
-      { apply segment_val; [apply Blo; exact Ho|apply Bhi; exact Ho|lra|]. right. split; [exact N|lra]. }
-      destruct (Qeq_bool b k); [|lra]. unred. rewrite V. lra.
-    - assert (Ho': In o' (tempo_times c)).
-      { unfold tempo_times. rewrite E, map_app. apply in_or_app. right. right. left. reflexivity. }
-      assert (Lt: o < o').
+    - cbn [map app diffs combine fst snd]. rewrite group_sum_cons, sum_where_cons.
+      pose proof (segment_val_none c lo hi o (Blo o Ho) Hlohi N) as V.
+      pose proof (Qmin'_self last) as Cl.
+      destruct (Qeq_bool b k); cbn [group_sum sum_where]; [|lra]. unred. rewrite V. lra.
+    - assert (Lt: o < o').
       { unfold tempo_times in S. rewrite E, map_app in S. destruct (ssorted_app_inv _ _ S) as [[S1 _] _].
         apply S1. left. reflexivity. }
-      assert (V: segment_time c lo hi o == o' - o).
-      { apply segment_val; [apply Blo; exact Ho|lra|apply Bhi; exact Ho'|]. left. exact N. }
+      assert (V: segment_time c lo hi o == Qmin' o' hi - Qmin' o hi).
+      { apply segment_val_some; [apply Blo; exact Ho|lra|exact N]. }
+      pose proof (Qmin'_compat o' last hi Elast) as Co'.
       specialize (IH (pre ++ [(o, b)])). rewrite <- app_assoc in IH. specialize (IH E).
-      change (group_sum k ((b, Qred (o' - o)) :: combine (map snd ((o', b') :: rows')) (diffs (map fst ((o', b') :: rows') ++ [last])))
-              == sum_where k (segment_time c lo hi) ((o, b) :: (o', b') :: rows')).
-      rewrite (sum_where_cons k (segment_time c lo hi) o b ((o', b') :: rows')), group_sum_cons.
+      cbn [map app fst snd] in IH. cbn [map app fst snd]. rewrite diffs_cons2. cbn [combine].
+      rewrite group_sum_cons, (sum_where_cons k (segment_time c lo hi) o b ((o', b') :: rows')).
       destruct (Qeq_bool b k).
       + unred. rewrite IH, V. lra.
       + exact IH.
   Qed.
 End Dominant.
+
+(* ---------- m.bpms.sorted(): a permutation of the rows, in time order *)
+Lemma binsert_perm x l : Permutation (binsert x l) (x :: l).
+Proof.
+  induction l as [|y l IH]; simpl; [apply Permutation_refl|]. destruct (Qle_bool (fst x) (fst y)); [apply Permutation_refl|].
+  apply perm_trans with (y :: x :: l); [apply perm_skip; exact IH|apply perm_swap].
+Qed.
+Lemma bsort_perm l : Permutation (bsort l) l.
+Proof.
+  induction l as [|x l IH]; simpl; [constructor|].
+  apply perm_trans with (x :: bsort l); [apply binsert_perm|apply perm_skip; exact IH].
+Qed.
+Fixpoint ksorted (l : list (Q * Q)) : Prop :=
+  match l with [] => True | a :: t => (forall x, In x t -> fst a <= fst x) /\ ksorted t end.
+Lemma binsert_ksorted x l : ksorted l -> ksorted (binsert x l).
+Proof.
+  induction l as [|y l IH]; simpl; intro H; [split; [intros ? []|exact I]|].
+  destruct H as [H1 H2]. destruct (Qle_bool (fst x) (fst y)) eqn:E; qbool.
+  - split; [|split; assumption]. intros z [Hz|Hz]; [subst; exact E|]. specialize (H1 z Hz). lra.
+  - split; [|apply IH; exact H2]. intros z Hz.
+    apply (Permutation_in _ (binsert_perm x l)) in Hz. destruct Hz as [Hz|Hz]; [subst; lra|auto].
+Qed.
+Lemma bsort_ksorted l : ksorted (bsort l).
+Proof. induction l as [|x l IH]; simpl; [exact I|]. apply binsert_ksorted. exact IH. Qed.
+
+Fixpoint qdistinct (l : list Q) : Prop :=
+  match l with [] => True | a :: t => (forall x, In x t -> ~ a == x) /\ qdistinct t end.
+Lemma distinct_times_sound l : distinct_times l = true -> qdistinct l.
+Proof.
+  induction l as [|a l IH]; simpl; [tauto|]. intro H. apply andb_true_iff in H. destruct H as [H1 H2].
+  split; [|auto]. intros x Hx E. apply negb_true_iff in H1.
+  assert (X: existsb (Qeq_bool a) l = true) by (apply existsb_exists; exists x; split; [exact Hx|apply Qeq_bool_true; exact E]).
+  congruence.
+Qed.
+Lemma qdistinct_perm l l' : Permutation l l' -> qdistinct l -> qdistinct l'.
+Proof.
+  induction 1 as [|x l l' P IH|x y l|l l' l'' P1 IH1 P2 IH2]; simpl; auto.
+  - intros [H1 H2]. split; [|auto]. intros z Hz. apply H1. apply (Permutation_in _ (Permutation_sym P)). exact Hz.
+  - intros [H1 [H2 H3]]. split; [|split; [|exact H3]].
+    + intros z [Hz|Hz]; [subst z; intro E; apply (H1 x); [left; reflexivity|lra]|apply H2; exact Hz].
+    + intros z Hz. apply H1. right. exact Hz.
+Qed.
+Lemma ksorted_distinct_ssorted l : ksorted l -> qdistinct (map fst l) -> ssorted (map fst l).
+Proof.
+  induction l as [|a l IH]; simpl; [tauto|]. intros [K1 K2] [D1 D2]. split; [|auto].
+  intros x Hx. apply in_map_iff in Hx. destruct Hx as [r [Er Hr]]. subst x.
+  specialize (K1 r Hr). assert (N: ~ fst a == fst r) by (apply D1; apply in_map; exact Hr).
+  destruct (Qlt_le_dec (fst a) (fst r)) as [Lt|Le]; [exact Lt|]. exfalso. apply N. lra.
+Qed.
+
+(* ---------- the specification does not depend on the order of the tempo rows *)
+Lemma sum_where_perm k f l l' : Permutation l l' -> sum_where k f l == sum_where k f l'.
+Proof.
+  induction 1 as [|[o b] l l' P IH|[o b] [o' b'] l|l l' l'' P1 IH1 P2 IH2].
+  - reflexivity.
+  - rewrite !sum_where_cons. destruct (Qeq_bool b k); [unred; rewrite IH; reflexivity|exact IH].
+  - rewrite !sum_where_cons. destruct (Qeq_bool b k), (Qeq_bool b' k); unred; lra.
+  - rewrite IH1. exact IH2.
+Qed.
+Lemma sum_where_ext k f g l : (forall o, f o == g o) -> sum_where k f l == sum_where k g l.
+Proof.
+  intro H. induction l as [|[o b] l IH]; [reflexivity|]. rewrite !sum_where_cons.
+  destruct (Qeq_bool b k); [unred; rewrite IH, (H o); reflexivity|exact IH].
+Qed.
+Lemma filter_perm {A} (f : A -> bool) l l' : Permutation l l' -> Permutation (filter f l) (filter f l').
+Proof.
+  induction 1 as [|x l l' P IH|x y l|l l' l'' P1 IH1 P2 IH2]; simpl.
+  - constructor.
+  - destruct (f x); [apply perm_skip|]; exact IH.
+  - destruct (f x), (f y); try apply Permutation_refl. apply perm_swap.
+  - eapply perm_trans; eassumption.
+Qed.
+Lemma list_min_none l : list_min l = None -> l = [].
+Proof. destruct l as [|a l]; [reflexivity|]. simpl. destruct (list_min l); discriminate. Qed.
+Definition oqeq (a b : option Q) : Prop :=
+  match a, b with Some x, Some y => x == y | None, None => True | _, _ => False end.
+Lemma list_min_perm l l' : Permutation l l' -> oqeq (list_min l) (list_min l').
+Proof.
+  intro P. destruct (list_min l) as [a|] eqn:E1, (list_min l') as [b|] eqn:E2; simpl; auto.
+  - destruct (list_min_spec _ _ E1) as [I1 B1]. destruct (list_min_spec _ _ E2) as [I2 B2].
+    pose proof (B2 a (Permutation_in _ P I1)). pose proof (B1 b (Permutation_in _ (Permutation_sym P) I2)). lra.
+  - apply list_min_none in E2. subst l'. apply Permutation_sym, Permutation_nil in P. subst l. discriminate.
+  - apply list_min_none in E1. subst l. apply Permutation_nil in P. subst l'. discriminate.
+Qed.
+Lemma segment_time_perm c c' lo hi o :
+  Permutation (tempo_times c) (tempo_times c') -> segment_time c lo hi o == segment_time c' lo hi o.
+Proof.
+  intro P. unfold segment_time.
+  pose proof (list_min_perm _ _ (filter_perm (fun t => Qlt_bool o t) _ _ P)) as M. fold (next_tempo c o) (next_tempo c' o) in M.
+  destruct (next_tempo c o) as [e|], (next_tempo c' o) as [e'|]; simpl in M; try contradiction; [|reflexivity].
+  pose proof (clip_compat lo hi e e' M) as C.
+  destruct (Qlt_bool (clip lo hi o) (clip lo hi e)) eqn:?, (Qlt_bool (clip lo hi o) (clip lo hi e')) eqn:?; qbool; lra.
+Qed.
 
 Lemma idxmax_go_spec best l :
   In (idxmax_go best l) (best :: l) /\ forall x, In x (best :: l) -> snd x <= snd (idxmax_go best l).
@@ -382,60 +471,69 @@ Proof. unfold group_keys. intro H. apply qdedup_in in H. exact (proj1 (qsort_in 
 Lemma group_keys_covers x rows : In x (map fst rows) -> exists k, In k (group_keys rows) /\ k == x.
 Proof. unfold group_keys. intro H. apply qdedup_covers. exact (proj2 (qsort_in _ _) H). Qed.
 
-(* For every chart of the property's domain whose tempo rows are in time order and whose last timed row is a
-   note, dominant_bpm returns a bpm value of the chart whose active time is maximal. *)
-Theorem dominant_is_argmax c :
-  wf_chart c = true -> ssortedb (tempo_times c) = true -> last_is_noteb c = true ->
-  dominant_spec 0 c (dominant_bpm c).
+Lemma wf_chart_pos c : wf_chart c = true -> forall r, In r (c_bpms c) -> 0 < snd r.
 Proof.
-  intros W Sb L. apply ssortedb_sound in Sb.
-  unfold wf_chart in W. destruct (first_tempo c) as [lo|] eqn:Eft; [|discriminate].
+  unfold wf_chart. destruct (first_tempo c); [|discriminate]. destruct (first_object c); [|discriminate].
+  intro H. apply andb_true_iff in H. destruct H as [_ H]. rewrite forallb_forall in H.
+  intros r Hr. apply Qlt_bool_iff. exact (H r Hr).
+Qed.
+Lemma diffs_length_map (f : Q -> Q) l x : length (diffs (map f (l ++ [x]))) = length l.
+Proof. rewrite map_app. simpl map. rewrite diffs_length, map_length. reflexivity. Qed.
+
+(* For EVERY chart of the property's domain (any row order, tempo points or SVs after the last note included),
+   dominant_bpm returns a bpm value of the chart whose active time is maximal. *)
+Theorem dominant_is_argmax c : wf_chart c = true -> dominant_spec 0 c (dominant_bpm c).
+Proof.
+  intros W. unfold wf_chart in W. destruct (first_tempo c) as [lo|] eqn:Eft; [|discriminate].
   destruct (first_object c) as [fo|] eqn:Efo; [|discriminate].
-  unfold last_is_noteb in L. destruct (last_object c) as [hi|] eqn:Elo; [|discriminate].
-  rewrite forallb_forall in L.
-  destruct (list_min_spec _ _ Eft) as [Ilo Blo]. destruct (list_max_spec _ _ Elo) as [Ihi Bhi'].
-  assert (Bhi: forall t, In t (tempo_times c) -> t <= hi).
-  { intros t Ht. apply Qle_bool_iff. apply L. apply in_or_app. left. exact Ht. }
-  (* the stack maximum is the last object *)
-  assert (Hst: stack_offsets c <> []).
-  { unfold stack_offsets. intro X. apply app_eq_nil in X. destruct X as [X _]. fold (tempo_times c) in X. rewrite X in Ilo. destruct Ilo. }
-  destruct (qmax_list_some _ Hst) as [last El]. destruct (qmax_list_spec _ _ El) as [Il Bl].
-  assert (Elast: last == hi).
-  { assert (A: last <= hi).
-    { unfold stack_offsets in Il. rewrite app_assoc in Il. apply in_app_or in Il. destruct Il as [Il|Il].
-      - apply Qle_bool_iff. apply L. exact Il.
-      - apply Bhi'. exact Il. }
-    assert (B: hi <= last).
-    { apply Bl. unfold stack_offsets. apply in_or_app. right. apply in_or_app. right. exact Ihi. }
-    lra. }
-  (* the interval Series *)
-  assert (Hrows: dominant_intervals c = Some (combine (map snd (c_bpms c)) (diffs (tempo_times c ++ [last])))).
-  { unfold dominant_intervals. rewrite El. fold (tempo_times c). rewrite qsort_sorted_id.
-    - rewrite diffs_length. unfold tempo_times. rewrite map_length, Nat.eqb_refl. reflexivity.
-    - apply ssorted_app_last; [exact Sb|]. intros x Hx. specialize (Bhi x Hx). lra. }
-  set (rows := combine (map snd (c_bpms c)) (diffs (tempo_times c ++ [last]))) in *.
-  assert (Hsum: forall k, group_sum k rows == active_time c k).
-  { intro k. unfold active_time. rewrite Eft, Elo. unfold rows, tempo_times.
-    apply (group_sum_active c lo hi last k Sb Blo Bhi Elast (c_bpms c) []). reflexivity. }
-  assert (Hfst: map fst rows = map snd (c_bpms c)).
-  { unfold rows. apply map_fst_combine. rewrite diffs_length. unfold tempo_times. rewrite !map_length. reflexivity. }
-  assert (Hne: groupby_sum rows <> []).
-  { unfold groupby_sum. destruct (c_bpms c) as [|[o b] l] eqn:Eb; [unfold tempo_times in Ilo; rewrite Eb in Ilo; destruct Ilo|].
-    assert (X: In b (map fst rows)) by (rewrite Hfst; left; reflexivity).
-    destruct (group_keys_covers _ _ X) as [k [K _]]. intro Y. apply map_eq_nil in Y. rewrite Y in K. destruct K. }
+  apply andb_true_iff in W. destruct W as [W Wpos]. apply andb_true_iff in W. destruct W as [Wle Wd]. qbool.
+  destruct (list_min_spec _ _ Eft) as [Ilo Blo]. destruct (list_min_spec _ _ Efo) as [Ifo Bfo].
+  assert (Hn: c_notes c <> []) by (intro X; unfold first_object in Ifo; rewrite X in Ifo; destruct Ifo).
+  destruct (list_max_some _ Hn) as [hi Elo]. destruct (list_max_spec _ _ Elo) as [Ihi Bhi].
+  assert (Hlohi: lo <= hi) by (specialize (Bhi fo Ifo); lra).
+  (* last = notes.max() *)
+  destruct (qmax_list_some _ Hn) as [last El]. destruct (qmax_list_spec _ _ El) as [Il Bl].
+  assert (Elast: last == hi) by (pose proof (Bl hi Ihi); pose proof (Bhi last Il); lra).
+  (* the sorted rows *)
+  set (rows := bsort (c_bpms c)).
+  pose proof (bsort_perm (c_bpms c)) as P. fold rows in P.
+  set (c' := mkChart rows (c_svs c) (c_notes c)).
+  assert (Pt: Permutation (tempo_times c) (tempo_times c')).
+  { unfold tempo_times, c'. simpl. apply Permutation_map. apply Permutation_sym. exact P. }
+  assert (Sb: ssorted (tempo_times c')).
+  { unfold tempo_times, c'. simpl. apply ksorted_distinct_ssorted; [apply bsort_ksorted|].
+    apply (qdistinct_perm (tempo_times c)); [exact Pt|]. apply distinct_times_sound. exact Wd. }
+  assert (Blo': forall t, In t (tempo_times c') -> lo <= t).
+  { intros t Ht. apply Blo. apply (Permutation_in _ (Permutation_sym Pt)). exact Ht. }
+  set (mrows := combine (map snd rows) (diffs (map (fun o => Qmin' o last) (map fst rows ++ [last])))).
+  assert (Hrows: dominant_intervals c = Some mrows).
+  { unfold dominant_intervals, last_offset. rewrite El. fold rows. rewrite diffs_length_map, map_length, Nat.eqb_refl. reflexivity. }
+  assert (Hsum: forall k, group_sum k mrows == active_time c k).
+  { intro k. unfold active_time, last_object. rewrite Eft, Elo.
+    rewrite (sum_where_perm k (segment_time c lo hi) _ _ (Permutation_sym P)).
+    rewrite (sum_where_ext k (segment_time c lo hi) (segment_time c' lo hi) rows (fun o => segment_time_perm c c' lo hi o Pt)).
+    unfold mrows. apply (group_sum_active c' lo hi last k Sb Blo' Hlohi Elast rows []). reflexivity. }
+  assert (Hfst: map fst mrows = map snd rows).
+  { unfold mrows. apply map_fst_combine. rewrite diffs_length_map, !map_length. reflexivity. }
+  assert (Hne: groupby_sum mrows <> []).
+  { unfold groupby_sum. destruct rows as [|[o b] l] eqn:Eb.
+    - apply Permutation_nil in P. unfold tempo_times in Ilo. rewrite P in Ilo. destruct Ilo.
+    - assert (X: In b (map fst mrows)) by (rewrite Hfst; left; reflexivity).
+      destruct (group_keys_covers _ _ X) as [k [K _]]. intro Y. apply map_eq_nil in Y. rewrite Y in K. destruct K. }
   destruct (idxmax_spec _ Hne) as [[k v] [Eid [Hin Hmax]]]. simpl fst in Eid. simpl snd in Hmax.
   unfold dominant_spec. exists k. split.
   { unfold dominant_bpm, dominant_groups. rewrite Hrows. exact Eid. }
   unfold groupby_sum in Hin. apply in_map_iff in Hin. destruct Hin as [k0 [Ek Hk]]. inversion Ek; subst k0 v. clear Ek.
   split.
   - apply group_keys_in in Hk. rewrite Hfst in Hk. apply in_map_iff in Hk. destruct Hk as [[o b'] [E1 E2]].
-    exists o, b'. split; [exact E2|]. simpl in E1. subst. reflexivity.
+    exists o, b'. split; [exact (Permutation_in _ P E2)|]. simpl in E1. subst. reflexivity.
   - intros o b' Hin.
-    assert (X: In b' (map fst rows)) by (rewrite Hfst; apply in_map_iff; exists (o, b'); split; [reflexivity|exact Hin]).
+    assert (X: In b' (map fst mrows)).
+    { rewrite Hfst. apply in_map_iff. exists (o, b'). split; [reflexivity|exact (Permutation_in _ (Permutation_sym P) Hin)]. }
     destruct (group_keys_covers _ _ X) as [k' [K1 K2]].
-    assert (M: group_sum k' rows <= group_sum k rows).
-    { apply (Hmax (k', group_sum k' rows)). unfold groupby_sum. apply in_map_iff. exists k'. split; [reflexivity|exact K1]. }
-    rewrite (group_sum_congr k' b' rows K2) in M. rewrite (Hsum b'), (Hsum k) in M. lra.
+    assert (M: group_sum k' mrows <= group_sum k mrows).
+    { apply (Hmax (k', group_sum k' mrows)). unfold groupby_sum. apply in_map_iff. exists k'. split; [reflexivity|exact K1]. }
+    rewrite (group_sum_congr k' b' mrows K2) in M. rewrite (Hsum b'), (Hsum k) in M. lra.
 Qed.
 
 (* the dominant-bpm oracle is also complete, so [false] really is a counter-example *)
@@ -448,85 +546,70 @@ Qed.
 Theorem dominant_specb_complete tol c out : dominant_spec tol c out -> dominant_specb tol c out = true.
 Proof. intros [b [E H]]. subst out. apply dominantb_complete. exact H. Qed.
 
-(* ------------------------------------------------------------------ refutations of the unguarded statement *)
+(* ------------------------------------------------------------------ why the repair (commit d3e6d46) was needed:
+   the same statement is FALSE of the OLD model [dominant_bpm_old] (positional pairing after sorting the offsets
+   only; "last object" = max over all lists of the map) *)
 Definition witness_unsorted := mkChart [(1000, 240); (0, 120)] None [0; 3000].
 Definition witness_tempo_after_last := mkChart [(0, 120); (1000, 240); (10000, 60)] None [0; 1500].
 Definition witness_sv_after_last := mkChart [(0, 120); (1000, 240)] (Some [(9000, 2)]) [0; 1500].
 
-Lemma refute_by_oracle c : dominant_specb 0 c (dominant_bpm c) = false -> ~ dominant_spec 0 c (dominant_bpm c).
+Lemma refute_by_oracle c out : dominant_specb 0 c out = false -> ~ dominant_spec 0 c out.
 Proof. intros H X. apply dominant_specb_complete in X. congruence. Qed.
 
-(* tempo rows out of time order: the positional set_axis credits intervals to the wrong bpm (returns 120; 240 is active for 2000 of 3000 ms) *)
-Theorem dominant_is_argmax_refuted_unsorted :
-  exists c, wf_chart c = true /\ last_is_noteb c = true /\ ssortedb (tempo_times c) = false
-            /\ dominant_bpm c = Some 120 /\ ~ dominant_spec 0 c (dominant_bpm c).
-Proof. exists witness_unsorted. do 4 (split; [vm_compute; reflexivity|]). apply refute_by_oracle. vm_compute. reflexivity. Qed.
-
-(* a tempo point after the last object: 9000 ms are credited to 240 although only 500 ms of it lie before the last object *)
-Theorem dominant_is_argmax_refuted_tempo_after_last :
-  exists c, wf_chart c = true /\ ssortedb (tempo_times c) = true /\ last_is_noteb c = false
-            /\ dominant_bpm c = Some 240 /\ ~ dominant_spec 0 c (dominant_bpm c).
-Proof. exists witness_tempo_after_last. do 4 (split; [vm_compute; reflexivity|]). apply refute_by_oracle. vm_compute. reflexivity. Qed.
-
-(* an SV after the last object extends the last tempo segment the same way (games with SVs) *)
-Theorem dominant_is_argmax_refuted_sv_after_last :
-  exists c, wf_chart c = true /\ ssortedb (tempo_times c) = true /\ last_is_noteb c = false
-            /\ dominant_bpm c = Some 240 /\ ~ dominant_spec 0 c (dominant_bpm c).
-Proof. exists witness_sv_after_last. do 4 (split; [vm_compute; reflexivity|]). apply refute_by_oracle. vm_compute. reflexivity. Qed.
-
-(* scroll_speed / sv_normalize inherit the wrong reference (oracle level: the proven-sound oracle rejects the model's
-   output on the same witnesses; completeness of these two oracles is not proved) *)
-Theorem inherited_reference_refuted_oracle :
-  forallb (fun c => wf_chart c && negb (scroll_specb 0 c None (scroll_speed c None)))
-          [witness_unsorted; witness_tempo_after_last; witness_sv_after_last] = true
-  /\ norm_specb 0 witness_sv_after_last None (sv_normalize witness_sv_after_last None) = false.
-Proof. split; vm_compute; reflexivity. Qed.
+(* tempo rows out of time order: intervals credited to the wrong bpm (returned 120; 240 is active 2000 of 3000 ms) *)
+Theorem dominant_old_refuted_unsorted :
+  exists c, wf_chart c = true /\ dominant_bpm_old c = Some 120 /\ ~ dominant_spec 0 c (dominant_bpm_old c).
+Proof. exists witness_unsorted. do 2 (split; [vm_compute; reflexivity|]). apply refute_by_oracle. vm_compute. reflexivity. Qed.
+(* a tempo point after the last object: 9000 ms credited to 240, of which only 500 ms lie before the last object *)
+Theorem dominant_old_refuted_tempo_after_last :
+  exists c, wf_chart c = true /\ dominant_bpm_old c = Some 240 /\ ~ dominant_spec 0 c (dominant_bpm_old c).
+Proof. exists witness_tempo_after_last. do 2 (split; [vm_compute; reflexivity|]). apply refute_by_oracle. vm_compute. reflexivity. Qed.
+(* an SV after the last object extended the last tempo segment the same way *)
+Theorem dominant_old_refuted_sv_after_last :
+  exists c, wf_chart c = true /\ dominant_bpm_old c = Some 240 /\ ~ dominant_spec 0 c (dominant_bpm_old c).
+Proof. exists witness_sv_after_last. do 2 (split; [vm_compute; reflexivity|]). apply refute_by_oracle. vm_compute. reflexivity. Qed.
+(* the current model is right on the three witnesses *)
+Lemma witnesses_now_ok :
+  forallb (fun c => dominant_specb 0 c (dominant_bpm c) && scroll_specb 0 c None (scroll_speed c None))
+          [witness_unsorted; witness_tempo_after_last; witness_sv_after_last] = true.
+Proof. vm_compute. reflexivity. Qed.
 
 (* ------------------------------------------------------------------ the reference bpm *)
-(* with an override nothing is asked of the rows; without one, the guard of dominant_is_argmax *)
-Definition ref_guard (c : chart) (ov : option Q) : bool :=
-  match ov with Some _ => true | None => ssortedb (tempo_times c) && last_is_noteb c end.
-
 Lemma reference_ok c ov :
-  wf_chart c = true -> wf_override ov = true -> ref_guard c ov = true ->
-  exists ref, reference_bpm c ov = Some ref /\ is_reference 0 c ov ref.
+  wf_chart c = true -> wf_override ov = true ->
+  exists ref, reference_bpm c ov = Some ref /\ is_reference 0 c ov ref /\ 0 < ref.
 Proof.
-  intros W O G. unfold reference_bpm, is_reference. destruct ov as [o|].
-  - simpl in O. apply Qlt_bool_iff in O. exists o. split; [|reflexivity].
+  intros W O. unfold reference_bpm, is_reference. destruct ov as [o|].
+  - simpl in O. apply Qlt_bool_iff in O. exists o. split; [|split; [reflexivity|exact O]].
     destruct (Qeq_bool o 0) eqn:E; [|reflexivity]. apply Qeq_bool_true in E. lra.
-  - simpl in G. apply andb_true_iff in G. destruct G as [G1 G2].
-    destruct (dominant_is_argmax c W G1 G2) as [b [E D]]. exists b. split; assumption.
+  - destruct (dominant_is_argmax c W) as [b [E D]]. exists b. split; [exact E|]. split; [exact D|].
+    destruct D as [[o [b' [Hin Hb]]] _]. pose proof (wf_chart_pos c W (o, b') Hin) as Pb. simpl in Pb. lra.
 Qed.
 
-Lemma wf_chart_pos c : wf_chart c = true -> forall r, In r (c_bpms c) -> 0 < snd r.
-Proof.
-  unfold wf_chart. destruct (first_tempo c); [|discriminate]. destruct (first_object c); [|discriminate].
-  intro H. apply andb_true_iff in H. destruct H as [_ H]. rewrite forallb_forall in H.
-  intros r Hr. apply Qlt_bool_iff. exact (H r Hr).
-Qed.
-
-(* SV normalisation: for every osu/Quaver chart of the domain and every override > 0 (or, without override, under
-   the guard of dominant_is_argmax) exactly one SV per tempo point, at its time, multiplier * bpm = reference *)
+(* SV normalisation: for every osu/Quaver chart of the domain (any row order) and every override > 0 or none:
+   exactly one SV per tempo point, at its time, multiplier * bpm = reference *)
 Theorem sv_normalize_spec c ov :
-  wf_chart c = true -> wf_override ov = true -> ref_guard c ov = true -> c_svs c <> None ->
-  norm_spec 0 c ov (sv_normalize c ov).
+  wf_chart c = true -> wf_override ov = true -> c_svs c <> None -> norm_spec 0 c ov (sv_normalize c ov).
 Proof.
-  intros W O G Sv. destruct (reference_ok c ov W O G) as [ref [E R]].
+  intros W O Sv. destruct (reference_ok c ov W O) as [ref [E [R _]]].
   unfold norm_spec, sv_normalize. rewrite E. destruct (c_svs c) as [svs|]; [|congruence].
   exists ref, (sv_normalize_with c ref). split; [reflexivity|]. split; [exact R|].
   apply sv_normalize_with_spec. apply wf_chart_pos. exact W.
 Qed.
 
-(* ------------------------------------------------------------------ D. scroll_speed: small-scope result (PARTIAL)
-   FULL STATEMENT (not proved for all inputs):
-     forall c ref, wf_chart c = true -> 0 < ref ->
-       exists o, scroll_speed_with c ref = Some o /\ scroll_ok 0 c ref o.
-   What is proved: the statement for EVERY chart of the small scope below (all row orders of <= 3 tempo rows on
+(* ------------------------------------------------------------------ D. scroll_speed on charts WITH an SV list:
+   small-scope result (PARTIAL).
+   FULL STATEMENT (proved in section E for charts of games without SVs, NOT proved for charts with an SV list):
+     forall c ref, wf_chart c = true -> exists o, scroll_speed_with c ref = Some o /\ scroll_ok 0 c ref o.
+   What is proved here: the statement for EVERY chart of the small scope below (all row orders of <= 3 tempo rows on
    times {0,1,2} with bpms {1,2}; no SV list, or all sequences of <= 2 SV rows on times {-1..3} with multipliers
    {2, 1/2} -- so SVs before the first tempo point, at tempo points, coinciding with each other, after the last
    note; four note sets), reference 3, by evaluation of the proven-sound oracle on the model's output.
-   Missing: the induction over sort/ffill/bfill/groupby-last/merge for arbitrary charts.  Beyond the small scope
-   the statement rests on the correspondence run + oracle on the implementation's outputs. *)
+   Missing for SV charts: (i) the SV table (groupby-last over tempo resets / head-tail markers / SV rows, then ffill)
+   carries sv_at at every key, (ii) the outer merge yields one row per key of the SV table, (iii) ffill of the bpm
+   column over SV-only keys.  The general facts about stable sort / ffill / bfill / latest_le needed for them are
+   proved in section E (ffill_go_char, filled_rows, ...).  Beyond the small scope the SV part rests on the
+   correspondence run + oracle on the implementation's outputs. *)
 Fixpoint seqs_upto {A} (opts : list A) (n : nat) : list (list A) :=
   match n with
   | O => [[]]
@@ -563,4 +646,464 @@ Proof.
   - apply negb_true_iff in H. congruence.
   - destruct (scroll_speed_with (mkChart b s n) 3) as [o|]; [|discriminate].
     exists o. split; [reflexivity|]. apply scroll_okb_sound. exact H.
+Qed.
+
+(* ================================================================== E. scroll_speed for all inputs *)
+(* ---------- latest_le: a left fold; on time-ordered rows it returns the last row at or before t *)
+Lemma latest_le_app t A B acc : latest_le t (A ++ B) acc = latest_le t B (latest_le t A acc).
+Proof. revert acc. induction A as [|a A IH]; intro acc; simpl; [reflexivity|apply IH]. Qed.
+Lemma latest_le_skip t B acc : (forall x, In x B -> t < fst x) -> latest_le t B acc = acc.
+Proof.
+  revert acc. induction B as [|b B IH]; intros acc H; simpl; [reflexivity|].
+  assert (E: Qle_bool (fst b) t = false) by (apply Qle_bool_false; apply H; left; reflexivity).
+  rewrite E. apply IH. intros x Hx. apply H. right. exact Hx.
+Qed.
+Lemma latest_le_in t A acc r : latest_le t A acc = Some r -> acc = Some r \/ (In r A /\ fst r <= t).
+Proof.
+  revert acc. induction A as [|a A IH]; intros acc H; simpl in H; [left; exact H|].
+  apply IH in H. destruct H as [H|[H1 H2]]; [|right; split; [right; exact H1|exact H2]].
+  destruct (Qle_bool (fst a) t) eqn:E; [|left; exact H]. qbool.
+  destruct acc as [x|].
+  - destruct (Qle_bool (fst x) (fst a)); [|left; exact H]. inversion H; subst. right. split; [left; reflexivity|exact E].
+  - inversion H; subst. right. split; [left; reflexivity|exact E].
+Qed.
+Lemma latest_le_last t A r :
+  ssorted (map fst (A ++ [r])) -> fst r <= t -> latest_le t (A ++ [r]) None = Some r.
+Proof.
+  intros S H. rewrite latest_le_app. simpl.
+  assert (E: Qle_bool (fst r) t = true) by (apply Qle_bool_iff; exact H). rewrite E.
+  destruct (latest_le t A None) as [x|] eqn:L; [|reflexivity].
+  apply latest_le_in in L. destruct L as [L|[L _]]; [discriminate|].
+  rewrite map_app in S. destruct (ssorted_app_inv _ _ S) as [_ R].
+  assert (Lt: fst x < fst r) by (apply R; [apply in_map; exact L|left; reflexivity]).
+  assert (E2: Qle_bool (fst x) (fst r) = true) by (apply Qle_bool_iff; lra). rewrite E2. reflexivity.
+Qed.
+Lemma latest_le_split t A r B :
+  ssorted (map fst (A ++ [r])) -> fst r <= t -> (forall x, In x B -> t < fst x) ->
+  latest_le t (A ++ r :: B) None = Some r.
+Proof.
+  intros S H HB. change (A ++ r :: B) with (A ++ [r] ++ B). rewrite app_assoc, latest_le_app.
+  rewrite (latest_le_last t A r S H). apply latest_le_skip. exact HB.
+Qed.
+
+Lemma ssorted_prefix l1 l2 : ssorted (l1 ++ l2) -> ssorted l1.
+Proof.
+  induction l1 as [|a l1 IH]; simpl; [intros; exact I|]. intros [H1 H2]. split; [|auto].
+  intros x Hx. apply H1. apply in_or_app. left. exact Hx.
+Qed.
+Lemma ssorted_snoc_prefix (A : list (Q * Q)) r B : ssorted (map fst (A ++ r :: B)) -> ssorted (map fst (A ++ [r])).
+Proof.
+  intro H. assert (E: A ++ r :: B = (A ++ [r]) ++ B) by (rewrite <- app_assoc; reflexivity).
+  rewrite E, map_app in H. apply ssorted_prefix in H. exact H.
+Qed.
+
+(* ---------- ffill over key-ordered rows *)
+Definition somes (l : list orow) : list (Q * Q) :=
+  flat_map (fun r => match snd r with Some v => [(fst r, v)] | None => [] end) l.
+Fixpoint oksorted (l : list orow) : Prop :=
+  match l with [] => True | a :: t => (forall x, In x t -> fst a <= fst x) /\ oksorted t end.
+(* a None row is never followed by a filled row with the same (or a smaller) key *)
+Fixpoint stable_ok (l : list orow) : Prop :=
+  match l with
+  | [] => True
+  | a :: t => (snd a = None -> forall x, In x t -> snd x <> None -> fst a < fst x) /\ stable_ok t
+  end.
+Fixpoint lastopt {A} (l : list A) : option A :=
+  match l with [] => None | x :: t => match t with [] => Some x | _ => lastopt t end end.
+Lemma lastopt_snoc {A} (l : list A) x : lastopt (l ++ [x]) = Some x.
+Proof. induction l as [|a l IH]; [reflexivity|]. simpl. destruct (l ++ [x]) eqn:E; [destruct l; discriminate|]. exact IH. Qed.
+Lemma lastopt_split {A} (l : list A) x : lastopt l = Some x -> exists l', l = l' ++ [x].
+Proof.
+  induction l as [|a l IH]; [discriminate|]. simpl. destruct l as [|b l].
+  - intro H. inversion H. exists []. reflexivity.
+  - intro H. destruct (IH H) as [l' E]. exists (a :: l'). rewrite E. reflexivity.
+Qed.
+Lemma lastopt_none {A} (l : list A) : lastopt l = None -> l = [].
+Proof.
+  induction l as [|a l IH]; [reflexivity|]. simpl. destruct l as [|b l]; [discriminate|].
+  intro H. apply IH in H. discriminate.
+Qed.
+Lemma somes_in x l : In x (somes l) <-> In (fst x, Some (snd x)) l.
+Proof.
+  unfold somes. rewrite in_flat_map. split.
+  - intros [[k v] [H1 H2]]. simpl in H2. destruct v as [v|]; [|destruct H2]. destruct H2 as [H2|[]]. subst x. exact H1.
+  - intro H. exists (fst x, Some (snd x)). split; [exact H|]. simpl. left. destruct x; reflexivity.
+Qed.
+
+Definition sem (S : list (Q * Q)) (r : orow) : orow := (fst r, option_map snd (latest_le (fst r) S None)).
+
+Lemma ffill_go_char Y : forall acc,
+  oksorted Y -> stable_ok Y -> ssorted (map fst (acc ++ somes Y)) ->
+  (forall a y, In a acc -> In y Y -> fst a <= fst y) ->
+  ffill_go (option_map snd (lastopt acc)) Y = map (sem (acc ++ somes Y)) Y.
+Proof.
+  induction Y as [|[t v] Y IH]; intros acc K St Ss B; [reflexivity|].
+  destruct K as [K1 K2]. destruct St as [St1 St2].
+  destruct v as [b|].
+  - (* a filled row: it is itself the latest row at or before its key *)
+    change (somes ((t, Some b) :: Y)) with ((t, b) :: somes Y) in *. cbn [ffill_go map].
+    assert (L: latest_le t (acc ++ (t, b) :: somes Y) None = Some (t, b)).
+    { apply latest_le_split.
+      - apply (ssorted_snoc_prefix acc (t, b) (somes Y)). exact Ss.
+      - simpl. lra.
+      - intros x Hx. rewrite map_app in Ss. simpl map in Ss. destruct (ssorted_app_inv _ _ Ss) as [[S1 _] _].
+        simpl. apply S1. apply in_map. exact Hx. }
+    unfold sem at 1. simpl fst. rewrite L. simpl option_map. f_equal.
+    specialize (IH (acc ++ [(t, b)])). rewrite lastopt_snoc in IH. simpl option_map in IH.
+    rewrite <- app_assoc in IH. simpl app in IH. apply IH; [exact K2|exact St2|exact Ss|].
+    intros a y Ha Hy. apply in_app_or in Ha. destruct Ha as [Ha|[Ha|[]]]; [apply B; [exact Ha|right; exact Hy]|].
+    subst a. simpl. apply (K1 y Hy).
+  - (* a None row takes the previous filled value: every filled row at or before its key lies before it *)
+    change (somes ((t, None) :: Y)) with (somes Y) in *. cbn [ffill_go map].
+    assert (After: forall x, In x (somes Y) -> t < fst x).
+    { intros x Hx. apply somes_in in Hx. apply (St1 eq_refl _ Hx). simpl. discriminate. }
+    assert (L: option_map snd (latest_le t (acc ++ somes Y) None) = option_map snd (lastopt acc)).
+    { destruct (lastopt acc) as [r|] eqn:E.
+      - destruct (lastopt_split _ _ E) as [acc' E']. subst acc. rewrite <- app_assoc. simpl app.
+        rewrite latest_le_split; [reflexivity| | |exact After].
+        + apply (ssorted_snoc_prefix acc' r (somes Y)). rewrite <- app_assoc in Ss. exact Ss.
+        + apply (B r (t, None)); [apply in_or_app; right; left; reflexivity|left; reflexivity].
+      - apply lastopt_none in E. subst acc.
+        simpl app. rewrite latest_le_skip; [reflexivity|exact After]. }
+    unfold sem at 1. simpl fst. rewrite L. f_equal.
+    destruct (lastopt acc) as [r|] eqn:E; simpl option_map.
+    + rewrite <- E in *. rewrite <- (f_equal (option_map snd) E) at 1. apply IH; [exact K2|exact St2|exact Ss|].
+      intros a y Ha Hy. apply B; [exact Ha|right; exact Hy].
+    + change None with (option_map (@snd Q Q) None). rewrite <- E. apply IH; [exact K2|exact St2|exact Ss|].
+      intros a y Ha Hy. apply B; [exact Ha|right; exact Hy].
+Qed.
+
+(* ---------- more on latest_le / earliest; independence of the row order when times are distinct *)
+Lemma latest_le_is_some t L : forall acc, (acc <> None \/ exists x, In x L /\ fst x <= t) -> latest_le t L acc <> None.
+Proof.
+  induction L as [|a L IH]; intros acc H; simpl.
+  - destruct H as [H|[x [[] _]]]. exact H.
+  - apply IH. destruct (Qle_bool (fst a) t) eqn:E; qbool.
+    + left. destruct acc as [y|]; [destruct (Qle_bool (fst y) (fst a))|]; discriminate.
+    + destruct H as [H|[x [[Hx|Hx] Hle]]]; [left; exact H|subst; lra|right; exists x; split; assumption].
+Qed.
+Lemma latest_le_max t L : forall acc r, latest_le t L acc = Some r ->
+  (forall a, acc = Some a -> fst a <= fst r) /\ (forall x, In x L -> fst x <= t -> fst x <= fst r).
+Proof.
+  induction L as [|a L IH]; intros acc r H; simpl in H.
+  - subst acc. split; [intros a E; inversion E; lra|intros x []].
+  - apply IH in H. destruct H as [H1 H2]. destruct (Qle_bool (fst a) t) eqn:E; qbool.
+    + destruct acc as [y|].
+      * destruct (Qle_bool (fst y) (fst a)) eqn:E2; qbool.
+        -- pose proof (H1 a eq_refl). split; [intros z Ez; inversion Ez; subst; lra|].
+           intros x [Hx|Hx] Hle; [subst; lra|auto].
+        -- pose proof (H1 y eq_refl). split; [intros z Ez; inversion Ez; subst; lra|].
+           intros x [Hx|Hx] Hle; [subst; lra|auto].
+      * pose proof (H1 a eq_refl). split; [intros z Ez; discriminate|]. intros x [Hx|Hx] Hle; [subst; lra|auto].
+    + split; [exact H1|]. intros x [Hx|Hx] Hle; [subst; lra|auto].
+Qed.
+Lemma distinct_inj (L : list (Q * Q)) r r' :
+  qdistinct (map fst L) -> In r L -> In r' L -> fst r == fst r' -> r = r'.
+Proof.
+  induction L as [|a L IH]; simpl; [intros _ []|]. intros [D1 D2] [H|H] [H'|H'] E.
+  - congruence.
+  - subst a. exfalso. apply (D1 (fst r')); [apply in_map; exact H'|exact E].
+  - subst a. exfalso. apply (D1 (fst r)); [apply in_map; exact H|lra].
+  - auto.
+Qed.
+Lemma latest_le_perm t L L' :
+  Permutation L L' -> qdistinct (map fst L) -> latest_le t L None = latest_le t L' None.
+Proof.
+  intros P D.
+  destruct (latest_le t L None) as [r|] eqn:E1, (latest_le t L' None) as [r'|] eqn:E2; try reflexivity.
+  - destruct (latest_le_in _ _ _ _ E1) as [X|[I1 Le1]]; [discriminate|].
+    destruct (latest_le_in _ _ _ _ E2) as [X|[I2 Le2]]; [discriminate|].
+    destruct (latest_le_max _ _ _ _ E1) as [_ M1]. destruct (latest_le_max _ _ _ _ E2) as [_ M2].
+    pose proof (M1 r' (Permutation_in _ (Permutation_sym P) I2) Le2).
+    pose proof (M2 r (Permutation_in _ P I1) Le1).
+    f_equal. apply (distinct_inj L); [exact D|exact I1|exact (Permutation_in _ (Permutation_sym P) I2)|lra].
+  - exfalso. destruct (latest_le_in _ _ _ _ E1) as [X|[I1 Le1]]; [discriminate|].
+    apply (latest_le_is_some t L' None); [|exact E2]. right. exists r. split; [exact (Permutation_in _ P I1)|exact Le1].
+  - exfalso. destruct (latest_le_in _ _ _ _ E2) as [X|[I2 Le2]]; [discriminate|].
+    apply (latest_le_is_some t L None); [|exact E1]. right. exists r'. split; [exact (Permutation_in _ (Permutation_sym P) I2)|exact Le2].
+Qed.
+
+Lemma earliest_spec L : forall acc r, earliest L acc = Some r ->
+  (acc = Some r \/ In r L) /\ (forall a, acc = Some a -> fst r <= fst a) /\ (forall x, In x L -> fst r <= fst x).
+Proof.
+  induction L as [|a L IH]; intros acc r H; simpl in H.
+  - subst acc. split; [left; reflexivity|]. split; [intros a E; inversion E; lra|intros x []].
+  - apply IH in H. destruct H as [H0 [H1 H2]]. destruct acc as [y|].
+    + destruct (Qlt_bool (fst a) (fst y)) eqn:E; qbool.
+      * pose proof (H1 a eq_refl). split; [destruct H0 as [H0|H0]; [inversion H0; right; left; reflexivity|right; right; exact H0]|].
+        split; [intros z Ez; inversion Ez; subst; lra|]. intros x [Hx|Hx]; [subst; lra|auto].
+      * pose proof (H1 y eq_refl). split; [destruct H0 as [H0|H0]; [left; exact H0|right; right; exact H0]|].
+        split; [exact H1|]. intros x [Hx|Hx]; [subst; lra|auto].
+    + pose proof (H1 a eq_refl). split; [destruct H0 as [H0|H0]; [inversion H0; right; left; reflexivity|right; right; exact H0]|].
+      split; [intros z Ez; discriminate|]. intros x [Hx|Hx]; [subst; lra|auto].
+Qed.
+Lemma earliest_some L : forall acc, (acc <> None \/ L <> []) -> earliest L acc <> None.
+Proof.
+  induction L as [|a L IH]; intros acc H; simpl; [destruct H as [H|H]; [exact H|congruence]|].
+  apply IH. left. destruct acc as [y|]; [destruct (Qlt_bool (fst a) (fst y))|]; discriminate.
+Qed.
+Lemma earliest_min L r :
+  qdistinct (map fst L) -> In r L -> (forall x, In x L -> fst r <= fst x) -> earliest L None = Some r.
+Proof.
+  intros D I M. destruct (earliest L None) as [r'|] eqn:E.
+  - destruct (earliest_spec _ _ _ E) as [[X|I'] [_ M']]; [discriminate|].
+    f_equal. apply (distinct_inj L); [exact D|exact I'|exact I|]. pose proof (M r' I'). pose proof (M' r I). lra.
+  - exfalso. apply (earliest_some L None); [right; intro X; subst L; destruct I|exact E].
+Qed.
+
+(* ---------- the stable sort of the frame rows *)
+Lemma oinsert_perm x l : Permutation (oinsert x l) (x :: l).
+Proof.
+  induction l as [|y l IH]; simpl; [apply Permutation_refl|]. destruct (Qle_bool (fst x) (fst y)); [apply Permutation_refl|].
+  apply perm_trans with (y :: x :: l); [apply perm_skip; exact IH|apply perm_swap].
+Qed.
+Lemma osort_perm l : Permutation (osort l) l.
+Proof.
+  induction l as [|x l IH]; simpl; [constructor|].
+  apply perm_trans with (x :: osort l); [apply oinsert_perm|apply perm_skip; exact IH].
+Qed.
+Lemma oinsert_oksorted x l : oksorted l -> oksorted (oinsert x l).
+Proof.
+  induction l as [|y l IH]; simpl; intro H; [split; [intros ? []|exact I]|].
+  destruct H as [H1 H2]. destruct (Qle_bool (fst x) (fst y)) eqn:E; qbool.
+  - split; [|split; assumption]. intros z [Hz|Hz]; [subst; exact E|]. specialize (H1 z Hz). lra.
+  - split; [|apply IH; exact H2]. intros z Hz.
+    apply (Permutation_in _ (oinsert_perm x l)) in Hz. destruct Hz as [Hz|Hz]; [subst; lra|auto].
+Qed.
+Lemma osort_oksorted l : oksorted (osort l).
+Proof. induction l as [|x l IH]; simpl; [exact I|]. apply oinsert_oksorted. exact IH. Qed.
+Lemma oinsert_stable a l : snd a <> None -> stable_ok l -> stable_ok (oinsert a l).
+Proof.
+  intro Ha. induction l as [|y l IH]; simpl; intro H; [split; [intro; contradiction|exact I]|].
+  destruct H as [H1 H2]. destruct (Qle_bool (fst a) (fst y)) eqn:E; qbool.
+  - split; [intro; contradiction|]. split; assumption.
+  - split; [|apply IH; exact H2]. intros Hy x Hx Hs.
+    apply (Permutation_in _ (oinsert_perm a l)) in Hx. destruct Hx as [Hx|Hx]; [subst; exact E|auto].
+Qed.
+Lemma all_none_stable l : (forall x, In x l -> snd x = None) -> stable_ok l.
+Proof.
+  induction l as [|a l IH]; simpl; intro H; [exact I|]. split; [|apply IH; intros; apply H; right; assumption].
+  intros _ x Hx Hs. exfalso. apply Hs. apply H. right. exact Hx.
+Qed.
+Lemma osort_app_stable A N :
+  (forall x, In x A -> snd x <> None) -> (forall x, In x N -> snd x = None) -> stable_ok (osort (A ++ N)).
+Proof.
+  intros HA HN. induction A as [|a A IH]; simpl.
+  - apply all_none_stable. intros x Hx. apply HN. exact (Permutation_in _ (osort_perm N) Hx).
+  - apply oinsert_stable; [apply HA; left; reflexivity|]. apply IH. intros x Hx. apply HA. right. exact Hx.
+Qed.
+
+Lemma somes_app A B : somes (A ++ B) = somes A ++ somes B.
+Proof. unfold somes. apply flat_map_app. Qed.
+Lemma somes_perm l l' : Permutation l l' -> Permutation (somes l) (somes l').
+Proof.
+  induction 1 as [|x l l' P IH|x y l|l l' l'' P1 IH1 P2 IH2].
+  - constructor.
+  - change (x :: l) with ([x] ++ l). change (x :: l') with ([x] ++ l'). rewrite !somes_app. apply Permutation_app_head. exact IH.
+  - change (y :: x :: l) with ([y] ++ [x] ++ l). change (x :: y :: l) with ([x] ++ [y] ++ l). rewrite !somes_app.
+    rewrite !app_assoc. apply Permutation_app_tail. apply Permutation_app_comm.
+  - eapply perm_trans; eassumption.
+Qed.
+Lemma somes_ksorted Y : oksorted Y -> ksorted (somes Y).
+Proof.
+  induction Y as [|[t v] Y IH]; simpl; [tauto|]. intros [K1 K2]. destruct v as [b|].
+  - change (somes ((t, Some b) :: Y)) with ((t, b) :: somes Y). split; [|auto].
+    intros x Hx. apply somes_in in Hx. exact (K1 _ Hx).
+  - change (somes ((t, None) :: Y)) with (somes Y). auto.
+Qed.
+Lemma somes_tempo rows : somes (map (fun r : Q * Q => (fst r, Some (snd r))) rows) = rows.
+Proof. induction rows as [|[o b] rows IH]; [reflexivity|]. simpl map. change (somes ((o, Some b) :: ?l)) with ((o, b) :: somes l). rewrite IH. reflexivity. Qed.
+
+(* ---------- ffill / bfill bookkeeping *)
+Lemma ffill_go_keys p l : map fst (ffill_go p l) = map fst l.
+Proof. revert p. induction l as [|[k v] l IH]; intro p; [reflexivity|]. cbn [ffill_go map fst]. rewrite IH. reflexivity. Qed.
+Lemma bfill_keys l : map fst (bfill l) = map fst l.
+Proof. induction l as [|[k v] l IH]; [reflexivity|]. cbn [bfill map fst]. rewrite IH. reflexivity. Qed.
+Lemma ffill_go_all_none N Z : (forall x, In x N -> snd x = None) -> ffill_go None (N ++ Z) = N ++ ffill_go None Z.
+Proof.
+  induction N as [|[k v] N IH]; intro H; [reflexivity|].
+  assert (E: v = None) by (apply (H (k, v)); left; reflexivity). subst v.
+  cbn [app ffill_go]. f_equal. apply IH. intros x Hx. apply H. right. exact Hx.
+Qed.
+Lemma bfill_all_some L : (forall x, In x L -> snd x <> None) -> bfill L = L.
+Proof.
+  induction L as [|[k v] L IH]; intro H; [reflexivity|]. destruct v as [v|]; [|exfalso; apply (H (k, None)); [left|]; reflexivity].
+  cbn [bfill]. f_equal. apply IH. intros x Hx. apply H. right. exact Hx.
+Qed.
+Lemma bfill_none_prefix N t b R : (forall x, In x N -> snd x = None) ->
+  bfill (N ++ (t, Some b) :: R) = map (fun x => (fst x, Some b)) N ++ bfill ((t, Some b) :: R).
+Proof.
+  induction N as [|[k v] N IH]; intro H; [reflexivity|].
+  assert (E: v = None) by (apply (H (k, v)); left; reflexivity). subst v.
+  cbn [app]. change (bfill ((k, None) :: N ++ (t, Some b) :: R))
+    with (let r := bfill (N ++ (t, Some b) :: R) in (k, match r with (_, w) :: _ => w | [] => None end) :: r).
+  rewrite IH by (intros x Hx; apply H; right; exact Hx). cbv zeta. cbn [map fst app]. f_equal.
+  destruct N as [|[k' v'] N]; reflexivity.
+Qed.
+Lemma somes_all_none N : (forall x, In x N -> snd x = None) -> somes N = [].
+Proof.
+  induction N as [|[k v] N IH]; intro H; [reflexivity|].
+  assert (E: v = None) by (apply (H (k, v)); left; reflexivity). subst v.
+  change (somes ((k, None) :: N)) with (somes N). apply IH. intros x Hx. apply H. right. exact Hx.
+Qed.
+Lemma split_first_some Y : somes Y <> [] ->
+  exists N t b Z, Y = N ++ (t, Some b) :: Z /\ (forall x, In x N -> snd x = None).
+Proof.
+  induction Y as [|[k v] Y IH]; intro H; [exfalso; apply H; reflexivity|]. destruct v as [b|].
+  - exists [], k, b, Y. split; [reflexivity|intros x []].
+  - change (somes ((k, None) :: Y)) with (somes Y) in H. destruct (IH H) as [N [t [b [Z [E HN]]]]].
+    exists ((k, None) :: N), t, b, Z. split; [rewrite E; reflexivity|]. intros x [Hx|Hx]; [subst; reflexivity|auto].
+Qed.
+Lemma oksorted_app_inv N Z : oksorted (N ++ Z) -> oksorted Z.
+Proof. induction N as [|a N IH]; simpl; [tauto|]. intros [_ H]. auto. Qed.
+Lemma stable_ok_app_inv N Z : stable_ok (N ++ Z) -> stable_ok Z.
+Proof. induction N as [|a N IH]; simpl; [tauto|]. intros [_ H]. auto. Qed.
+Lemma stable_ok_app N Z : stable_ok (N ++ Z) ->
+  forall x y, In x N -> snd x = None -> In y Z -> snd y <> None -> fst x < fst y.
+Proof.
+  induction N as [|a N IH]; simpl; intros H x y Hx; [destruct Hx|]. destruct H as [H1 H2].
+  destruct Hx as [Hx|Hx]; [subst a|eauto]. intros Hn Hy Hs. apply (H1 Hn); [apply in_or_app; right; exact Hy|exact Hs].
+Qed.
+
+(* ---------- the bpm step function (bpm_frame): every row carries the active bpm at its key *)
+Section Frame.
+  Variables (c : chart) (omin omax : Q).
+  Hypothesis D : qdistinct (tempo_times c).
+  Hypothesis Hne : c_bpms c <> [].
+  Let X : list orow := map (fun r : Q * Q => (fst r, Some (snd r))) (c_bpms c) ++ [(omin, None); (omax, None)].
+
+  Lemma filled_rows : forall r, In r (bfill (ffill (osort X))) -> exists b, snd r = Some b /\ bpm_at c (fst r) = Some b.
+  Proof.
+    set (Y := osort X). pose proof (osort_perm X) as P. fold Y in P.
+    assert (PS: Permutation (somes Y) (c_bpms c)).
+    { apply perm_trans with (somes X); [apply somes_perm; exact P|]. unfold X. rewrite somes_app, somes_tempo.
+      change (somes [(omin, None); (omax, None)]) with (@nil (Q * Q)). rewrite app_nil_r. apply Permutation_refl. }
+    assert (DS: qdistinct (map fst (somes Y))).
+    { apply (qdistinct_perm (tempo_times c)); [|exact D]. unfold tempo_times. apply Permutation_map. apply Permutation_sym. exact PS. }
+    assert (KY: oksorted Y) by apply osort_oksorted.
+    assert (StY: stable_ok Y).
+    { unfold Y, X. apply osort_app_stable.
+      - intros x Hx. apply in_map_iff in Hx. destruct Hx as [r [E _]]. subst x. simpl. discriminate.
+      - intros x [Hx|[Hx|[]]]; subst x; reflexivity. }
+    assert (SS: ssorted (map fst (somes Y))) by (apply ksorted_distinct_ssorted; [apply somes_ksorted; exact KY|exact DS]).
+    assert (Sne: somes Y <> []).
+    { intro E. rewrite E in PS. apply Permutation_nil in PS. exact (Hne PS). }
+    destruct (split_first_some Y Sne) as [N [t1 [b1 [Z' [EY HN]]]]].
+    set (Z := (t1, Some b1) :: Z') in *.
+    assert (ES: somes Y = somes Z) by (rewrite EY, somes_app, (somes_all_none N HN); reflexivity).
+    set (S := somes Z) in *. rewrite ES in PS, DS, SS, Sne.
+    assert (KZ: oksorted Z) by (rewrite EY in KY; exact (oksorted_app_inv _ _ KY)).
+    assert (StZ: stable_ok Z) by (rewrite EY in StY; exact (stable_ok_app_inv _ _ StY)).
+    assert (EF: ffill Y = N ++ map (sem S) Z).
+    { unfold ffill. rewrite EY, (ffill_go_all_none N Z HN). f_equal.
+      apply (ffill_go_char Z [] KZ StZ SS). intros a y []. }
+    assert (Hsome: forall z, In z Z -> exists r0, latest_le (fst z) S None = Some r0).
+    { intros z Hz. destruct (latest_le (fst z) S None) as [r0|] eqn:E; [exists r0; reflexivity|]. exfalso.
+      apply (latest_le_is_some (fst z) S None); [|exact E]. right. exists (t1, b1). split; [left; reflexivity|].
+      destruct Hz as [Hz|Hz]; [subst z; simpl; lra|]. destruct KZ as [K1 _]. exact (K1 z Hz). }
+    assert (Ehd: sem S (t1, Some b1) = (t1, Some b1)).
+    { unfold sem. simpl fst. change S with ([] ++ (t1, b1) :: somes Z').
+      rewrite latest_le_split; [reflexivity|simpl; split; [intros x []|exact I]|simpl; lra|].
+      intros x Hx. destruct SS as [S1 _]. apply S1. apply in_map. exact Hx. }
+    assert (EB: bfill (ffill Y) = map (fun x => (fst x, Some b1)) N ++ map (sem S) Z).
+    { rewrite EF. unfold Z at 1. cbn [map]. rewrite Ehd. rewrite (bfill_none_prefix N t1 b1 _ HN). f_equal.
+      rewrite <- Ehd. change (sem S (t1, Some b1) :: map (sem S) Z') with (map (sem S) Z). apply bfill_all_some.
+      intros x Hx. apply in_map_iff in Hx. destruct Hx as [z [Ex Hz]]. subst x. destruct (Hsome z Hz) as [r0 E].
+      unfold sem. cbn [snd fst]. rewrite E. discriminate. }
+    intros r Hr. fold Y in Hr. rewrite EB in Hr. apply in_app_or in Hr. destruct Hr as [Hr|Hr].
+    - (* rows before the first tempo point take the first tempo point's bpm *)
+      apply in_map_iff in Hr. destruct Hr as [x [Er Hx]]. subst r. exists b1. split; [reflexivity|]. simpl fst.
+      unfold bpm_at.
+      assert (In1: In (t1, b1) (c_bpms c)) by (apply (Permutation_in _ PS); left; reflexivity).
+      assert (Lnone: latest_le (fst x) (c_bpms c) None = None).
+      { destruct (latest_le (fst x) (c_bpms c) None) as [r'|] eqn:E; [|reflexivity]. exfalso.
+        destruct (latest_le_in _ _ _ _ E) as [Q0|[I' Le']]; [discriminate|].
+        apply (Permutation_in _ (Permutation_sym PS)) in I'. apply somes_in in I'.
+        assert (StNZ: stable_ok (N ++ Z)) by (rewrite <- EY; exact StY).
+        pose proof (stable_ok_app N Z StNZ x _ Hx (HN x Hx) I') as SA.
+        simpl in SA. assert (fst x < fst r') by (apply SA; discriminate). lra. }
+      rewrite Lnone. rewrite (earliest_min (c_bpms c) (t1, b1) D In1); [reflexivity|].
+      intros y Hy. apply (Permutation_in _ (Permutation_sym PS)) in Hy. destruct Hy as [Hy|Hy]; [rewrite <- Hy; apply Qle_refl|].
+      destruct SS as [S1 _]. cbn [fst]. apply Qlt_le_weak. apply S1. apply in_map. exact Hy.
+    - apply in_map_iff in Hr. destruct Hr as [z [Er Hz]]. subst r. destruct (Hsome z Hz) as [r0 E].
+      exists (snd r0). unfold sem. cbn [snd fst]. rewrite E. split; [reflexivity|]. unfold bpm_at.
+      rewrite (latest_le_perm (fst z) (c_bpms c) S (Permutation_sym PS) D), E. reflexivity.
+  Qed.
+
+  Lemma filled_keys : forall x, In x X -> exists r, In r (bfill (ffill (osort X))) /\ fst r = fst x.
+  Proof.
+    intros x Hx. assert (K: In (fst x) (map fst (bfill (ffill (osort X))))).
+    { unfold ffill. rewrite bfill_keys, ffill_go_keys. apply in_map. apply (Permutation_in _ (Permutation_sym (osort_perm X))). exact Hx. }
+    apply in_map_iff in K. destruct K as [r [E Hr]]. exists r. split; assumption.
+  Qed.
+End Frame.
+
+Lemma dedup_go_in seen l x : In x (dedup_go seen l) -> In x l.
+Proof.
+  revert seen. induction l as [|a l IH]; intro seen; simpl; [tauto|].
+  destruct (existsb (orow_eq a) seen); [intro H; right; eauto|]. intros [H|H]; [left; exact H|right; eauto].
+Qed.
+Lemma dedup_go_covers l : forall seen x, In x l -> exists y, (In y (dedup_go seen l) \/ In y seen) /\ orow_eq x y = true.
+Proof.
+  induction l as [|a l IH]; intros seen x Hx; [destruct Hx|]. simpl. destruct Hx as [Hx|Hx].
+  - subst a. destruct (existsb (orow_eq x) seen) eqn:E.
+    + apply existsb_exists in E. destruct E as [y [Hy E]]. exists y. split; [right; exact Hy|exact E].
+    + exists x. split; [left; left; reflexivity|]. unfold orow_eq. destruct x as [k [v|]]; simpl;
+      rewrite ?Qeq_bool_refl; reflexivity.
+  - destruct (existsb (orow_eq a) seen).
+    + exact (IH seen x Hx).
+    + destruct (IH (a :: seen) x Hx) as [y [[Hy|[Hy|Hy]] E]]; exists y; (split; [|exact E]).
+      * left. right. exact Hy.
+      * left. left. exact Hy.
+      * right. exact Hy.
+Qed.
+
+(* ---------- scroll_speed on charts of games without SVs (BMS, O2Jam, StepMania): all inputs *)
+Lemma qmin_list_some l : l <> [] -> exists m, qmin_list l = Some m.
+Proof. destruct l as [|a l]; [congruence|]. intros _. simpl. destruct (qmin_list l); eauto. Qed.
+
+Lemma wf_chart_distinct c : wf_chart c = true -> qdistinct (tempo_times c) /\ c_bpms c <> [].
+Proof.
+  unfold wf_chart. destruct (first_tempo c) as [lo|] eqn:E; [|discriminate]. destruct (first_object c); [|discriminate].
+  intro H. apply andb_true_iff in H. destruct H as [H _]. apply andb_true_iff in H. destruct H as [_ H]. split.
+  - apply distinct_times_sound. exact H.
+  - intro X. unfold first_tempo, tempo_times in E. rewrite X in E. discriminate.
+Qed.
+
+(* For every chart of the domain of a game without SVs (any row order) and every reference: the speed at every
+   breakpoint is active bpm / reference, and every tempo point is a breakpoint. *)
+Theorem scroll_speed_with_nosv c ref :
+  wf_chart c = true -> c_svs c = None -> exists o, scroll_speed_with c ref = Some o /\ scroll_ok 0 c ref o.
+Proof.
+  intros W Hsv. destruct (wf_chart_distinct c W) as [D Hne].
+  assert (Hst: stack_offsets c <> []).
+  { unfold stack_offsets. intro X. apply app_eq_nil in X. destruct X as [X _]. apply map_eq_nil in X. exact (Hne X). }
+  destruct (qmin_list_some _ Hst) as [omin Emin]. destruct (qmax_list_some _ Hst) as [omax Emax].
+  unfold scroll_speed_with. rewrite Emin, Emax, Hsv. eexists. split; [reflexivity|].
+  unfold bpm_frame, drop_duplicates.
+  set (B := bfill (ffill (osort (map (fun r : Q * Q => (fst r, Some (snd r))) (c_bpms c) ++ [(omin, None); (omax, None)])))).
+  repeat split.
+  - intros t s Hin. apply in_map_iff in Hin. destruct Hin as [r [E Hr]]. inversion E; subst t s. clear E.
+    apply dedup_go_in in Hr. destruct (filled_rows c omin omax D Hne r Hr) as [b [Eb Hb]].
+    exists b, (Qred (b / ref * 1)). split; [exact Hb|]. split; [rewrite Eb; reflexivity|].
+    unfold sv_at. rewrite Hsv. apply Q_close_0. symmetry. apply Qred_correct.
+  - intros r Hr.
+    assert (Hx: In (fst r, Some (snd r)) (map (fun r : Q * Q => (fst r, Some (snd r))) (c_bpms c) ++ [(omin, None); (omax, None)])).
+    { apply in_or_app. left. apply in_map_iff. exists r. split; [reflexivity|exact Hr]. }
+    destruct (filled_keys c omin omax _ Hx) as [r' [Hr' Ek]]. fold B in Hr'.
+    destruct (dedup_go_covers B [] r' Hr') as [y [[Hy|[]] Ey]].
+    unfold has_breakpoint. exists (fst y, speed_of ref (snd y) (Some 1)). split.
+    + apply in_map_iff. exists y. split; [reflexivity|exact Hy].
+    + unfold orow_eq in Ey. apply andb_true_iff in Ey. destruct Ey as [Ey _]. apply Qeq_bool_true in Ey.
+      simpl in *. rewrite <- Ek in *. lra.
+  - intros r Hr. unfold sv_rows in Hr. rewrite Hsv in Hr. destruct Hr.
+Qed.
+
+(* scroll_speed, top level, games without SVs: every chart of the domain (any row order), every override > 0 or none *)
+Theorem scroll_speed_spec_nosv c ov :
+  wf_chart c = true -> wf_override ov = true -> c_svs c = None -> scroll_spec 0 c ov (scroll_speed c ov).
+Proof.
+  intros W O Hsv. destruct (reference_ok c ov W O) as [ref [E [R _]]].
+  destruct (scroll_speed_with_nosv c ref W Hsv) as [o [Eo Ho]].
+  unfold scroll_spec, scroll_speed. rewrite E. exists ref, o. split; [exact Eo|]. split; assumption.
 Qed.
